@@ -689,13 +689,38 @@ func Derive(prof string, c *model.Corpus, seed uint64, run int, bankLimit uint64
 			}
 		}
 	}
+	// C07: a history that focuses on a bystander of a rejected container (ByVal<n> / ByHold<n>) also calls on that
+	// container (Has<n>) early on: what its failed registration leaves behind is part of the bystander's call history
+	if prof == "C07" && len(interlude) == 0 {
+		for _, fi := range focus {
+			n := b.valid[fi].Name
+			num := ""
+			switch {
+			case len(n) > 5 && n[:5] == "ByVal":
+				num = n[5:]
+			case len(n) > 6 && n[:6] == "ByHold":
+				num = n[6:]
+			}
+			if num == "" {
+				continue
+			}
+			for i, s := range b.rej {
+				if s.Name == "Has"+num {
+					rj := SysRejected + uint64(3*i)
+					interlude = []uint64{rj + uint64(r.Intn(3)), rj + 1}
+				}
+			}
+		}
+	}
 	// history worlds: operations dealt to tasks; sometimes an operation is repeated later in the history
 	// (same arguments, different predecessors) and events are sprinkled in.
 	var recent []uint64
 	for i := 0; i < nops; i++ {
 		st := Step{Slot: i, Task: r.Intn(rs.Tasks)}
 		switch {
-		case len(interlude) > 0 && i >= nops/3 && i < nops/3+len(interlude):
+		case len(interlude) > 0 && prof == "C07" && i >= 2 && i < 2+len(interlude):
+			st.Op = interlude[i-2]
+		case len(interlude) > 0 && prof != "C07" && i >= nops/3 && i < nops/3+len(interlude):
 			st.Op = interlude[i-nops/3]
 		case soak && (i == nops/2 || i == nops-1):
 			st.Op = WrapBase + uint64(r.Intn(2*len(b.reqs)))
